@@ -95,13 +95,13 @@ impl OverlayFS {
 impl FileSystem for OverlayFS {
     fn read_dir(&self, path: &str) -> VfsResult<Box<dyn Iterator<Item = String> + Send>> {
         let actual_path = if !path.is_empty() { &path[1..] } else { path };
-        if !self.read_path(path)?.exists()? {
-            return Err(VfsErrorKind::FileNotFound.into());
+        if !self.read_path(path)?.is_dir()? {
+            return Err(VfsErrorKind::Other("Not a directory".into()).into());
         }
         let mut entries = HashSet::<String>::new();
         for layer in &self.layers {
             let layer_path = layer.join(actual_path)?;
-            if layer_path.exists()? {
+            if layer_path.is_dir()? {
                 for path in layer_path.read_dir()? {
                     entries.insert(path.filename());
                 }
